@@ -40,6 +40,11 @@ def units():
     out.append(flow.Unit('guderley', groups=['guderley'], props=['props/C03_guderley.v'], custom_corr=GDC.unit_corr, oracle=GDO.eos_oracle, always_oracle=True,
                          note='Guderley: p = (gamma - 1) rho e and c^2 = gamma p / rho in every integrated branch of state(), whatever the integrator returns (theorem); '
                               'real solver sampled in all four branches (oracle)'))
+    import sedov_eos_corr as SEC
+    out.append(flow.Unit('sedov', groups=['sedov_eos'], props=['props/C03_sedov.v'], custom_corr=SEC.unit_corr,
+                         oracle=lambda rng, tier, reasons: EA.oracle(rng, tier, reasons, kinds=('sedov',)),
+                         note='Sedov: energy and sound speed as assembled at the end of _run and in physical() obey the gamma law (theorems on the regenerated assignments; '
+                              'the fields returned by the real solver are compared with these formulas evaluated on its own pressure and density)'))
     out.append(flow.Unit('eos-real-code', groups=[], props=[], oracle=EA.oracle, always_oracle=True,
                          note='EOS consistency on the real code for both Riemann drivers with different gammas on the two sides (side decided from the contact '
                               'position), Sedov, EHEP, Mader (cell averages: tolerance 1e-4 on a fine grid) and RMTV'))
